@@ -275,7 +275,7 @@ class Linear2StageBattery(Battery):
         if self._noise_level > 0:
             raw_noise = np.random.normal(0, self._noise_level)
             scaled_noise = raw_noise * (period / 60) / self._capacity
-            curr_soc -= abs(scaled_noise)
+            curr_soc = max(curr_soc - abs(scaled_noise), self._soc)
 
         dsoc = curr_soc - self._soc
         self._current_charge = curr_soc * self._capacity
